@@ -125,6 +125,13 @@ Row(cs, vs) == [c \in Range(cs) |-> vs[IndexOf(cs, c)]]
 L1 == <<"onset", "duration", "a", "b">>
 P1 == <<Row(L1, <<"1", "1", "x", "x">>), Row(L1, <<"2", "n/a", "x", "x">>), Row(L1, <<"2", "2", "x", "y">>),
         Row(L1, <<"3", "1", "1", "n/a">>), Row(L1, <<"4", "2", "n/a", "x">>), Row(L1, <<"5", "3", "y", "y">>)>>
+\* a long event followed by shorter ones of the same code: the extent of a merged run is not the end of its last row
+P7 == Row(L1, <<"1", "6", "x", "x">>)
+P8 == Row(L1, <<"2", "1", "x", "x">>)
+P9 == Row(L1, <<"4", "1", "x", "x">>)
+P10 == Row(L1, <<"2", "6", "x", "x">>)
+\* ... the longest event first, or in the MIDDLE of the run
+LongFirst == {[cols |-> L1, rows |-> r] : r \in {<<P7, P8>>, <<P7, P8, P9>>, <<P1[1], P10, P9>>, <<P1[6], P1[1], P10, P9, P1[6]>>}}
 L2 == <<"b", "a", "c">>
 P2 == <<Row(L2, <<"x", "x", "1">>), Row(L2, <<"y", "x", "1">>), Row(L2, <<"n/a", "1", "x">>), Row(L2, <<"x", "xy", "n/a">>)>>
 L3 == <<"a">>
@@ -135,9 +142,9 @@ P4 == <<Row(L4, <<"1", "p", "x", "1", "x">>), Row(L4, <<"1", "q", "x", "2", "x">
 Seqs(pool, n) == UNION {[1..k -> Range(pool)] : k \in 0..n}
 Tables(L, pool, n) == {[cols |-> L, rows |-> r] : r \in Seqs(pool, n)}
 Pre(pool, k) == SubSeq(pool, 1, k)
-TablesQuick == Tables(L1, Pre(P1, 5), 2) \cup Tables(L2, P2, 2) \cup Tables(L3, P3, 2) \cup Tables(L4, P4, 1)
+TablesQuick == LongFirst \cup Tables(L1, Pre(P1, 5), 2) \cup Tables(L2, P2, 2) \cup Tables(L3, P3, 2) \cup Tables(L4, P4, 1)
                \cup {[cols |-> L1, rows |-> r] : r \in {<<P1[1], P1[2], P1[3]>>, <<P1[1], P1[3], P1[3], P1[6]>>, <<P1[4], P1[1], P1[1], P1[2]>>}}
-TablesThorough == Tables(L1, P1, 3) \cup Tables(L2, P2, 3) \cup Tables(L3, P3, 3) \cup Tables(L4, P4, 3)
+TablesThorough == LongFirst \cup Tables(L1, P1, 3) \cup Tables(L2, P2, 3) \cup Tables(L3, P3, 3) \cup Tables(L4, P4, 3)
                   \cup {[cols |-> L1, rows |-> r] : r \in {<<P1[1], P1[3], P1[3], P1[6]>>, <<P1[4], P1[1], P1[1], P1[2]>>, <<P1[1], P1[1], P1[2], P1[3], P1[3]>>}}
 UnitTuplesQuick == {<<t>> : t \in TablesQuick}
 UnitTuplesThorough == {<<t>> : t \in TablesThorough}
